@@ -158,7 +158,7 @@ def gradient(t, dim="all", bounds=None):
         return tn.partial(t, dim, order=1, bounds=bounds)
     if bounds is None:
         bounds = [[0, t.shape[d]] for d in dim]
-    if not hasattr(bounds, "__len__"):
+    if not hasattr(bounds[0], "__len__"):
         bounds = [bounds] * len(dim)
 
     if not hasattr(dim, "__len__"):
